@@ -149,20 +149,30 @@ CYCLE_ENTRIES = {
 
 def fam_cycle_entry(entry):
     """Recursion cycle of length L (k % 10) through rules in shape k // 10 (1: rule -> asm -> rule, 2: rule -> function
-    -> asm -> rule, 3: rule -> block-local = asm -> rule), entered from the given context."""
+    -> asm -> rule, 3: rule -> block-local = asm -> rule, 4: parameterless rule -> asm -> rule, 5: rule -> asm with a constant argument),
+    entered from the given context."""
     def fn(k):
         shape, n = k // 10, k % 10
         rules, fns = ["    emit {x} => x`8"], []
         for i in range(n):
             nxt = "c%d" % ((i + 1) % n)
-            if shape == 1:
+            if shape == 4:
+                # no parameter at all: nothing is substituted into the block
+                rules.append("    c%d => asm { %s }" % (i, nxt))
+            elif shape == 5:
+                # a parameter exists but the block passes a constant on, so again nothing is substituted
+                rules.append("    c%d {x} => asm { %s 1 }" % (i, nxt))
+            elif shape == 1:
                 rules.append("    c%d {x} => asm { %s {x} }" % (i, nxt))
             elif shape == 2:
                 rules.append("    c%d {x} => f%d(x)" % (i, i))
                 fns.append("#fn f%d(v) => asm { %s {v} }" % (i, nxt))
             else:
                 rules.append("    c%d {x} => {\n        y = asm { %s {x} }\n        y\n    }" % (i, nxt))
-        src = "#ruledef\n{\n" + "\n".join(rules) + "\n}\n" + "\n".join(fns + CYCLE_ENTRIES[entry]) + "\n"
+        entry_lines = CYCLE_ENTRIES[entry]
+        if shape == 4:
+            entry_lines = [l.replace("c0 1", "c0").replace("c0 {v}", "c0").replace("c0 end", "c0") for l in entry_lines]
+        src = "#ruledef\n{\n" + "\n".join(rules) + "\n}\n" + "\n".join(fns + entry_lines) + "\n"
         return {"main.asm": src}, ("error",)
     return fn
 
@@ -317,7 +327,7 @@ FAMILIES = {
     "fn-cycle": (fam_cycle_fn, [1, 2, 3, 4], [1, 2, 3, 4]),
     "asm-cycle": (fam_cycle_asm, [1, 2, 3, 4], [1, 2, 3, 4]),
     "constant-cycle": (fam_cycle_rule_expr, [1, 2, 3, 4], [1, 2, 3, 4, 50]),
-    **{"cycle-from-" + e: (fam_cycle_entry(e), [11, 12, 13, 14, 21, 22, 23, 31, 32, 33], [s * 10 + n for s in (1, 2, 3) for n in (1, 2, 3, 4)])
+    **{"cycle-from-" + e: (fam_cycle_entry(e), [11, 12, 13, 14, 21, 22, 23, 31, 32, 33, 41, 42, 43, 51, 52], [s * 10 + n for s in (1, 2, 3, 4, 5) for n in (1, 2, 3, 4)])
        for e in CYCLE_ENTRIES},
     "subrule-left-recursion": (fam_cycle_subrule, [1, 2, 3, 4], [1, 2, 3, 4]),
     "include-cycle": (fam_cycle_include, [1, 2, 3, 4], [1, 2, 3, 4]),
